@@ -947,3 +947,13 @@ func (r *Report) Refuse(s Refuse) {
 	}
 	r.Bad(key, rule, r.P.Pos(s.Fn.Pos()), strings.Join(bad, " || "))
 }
+
+// ReturnsConstBool: every return whose idx-th result is a boolean constant (either value).
+func ReturnsConstBool(idx int) Effect {
+	return Effect{Desc: "return of a boolean constant", Sites: func(g *gateRun) []effSite {
+		return g.returnSites(func(sig *types.Signature) int { return idx }, func(v ssa.Value, at *ssa.BasicBlock, _ *Edge) bool {
+			_, ok := ConstBool(v)
+			return ok
+		})
+	}}
+}
